@@ -100,13 +100,13 @@ func seqJobList(prop, tier string) []*SeqJob {
 	case "C06":
 		return c06Jobs(tier)
 	case "C04":
-		return append(c04Jobs(tier), tagChainSweep("C04", "size-sweep-tag-chain", tier))
+		return append(c04Jobs(tier), tagChainSweep("C04", "size-sweep-tag-chain", tier, false))
 	case "C05":
-		return append(c05Jobs(tier), tagChainSweep("C05", "size-sweep-tag-chain", tier))
+		return append(c05Jobs(tier), tagChainSweep("C05", "size-sweep-tag-chain", tier, false))
 	case "C10":
 		return c10Jobs(tier)
 	case "C11":
-		return c11Jobs(tier)
+		return append(c11Jobs(tier), tagChainSweep("C11", "size-sweep-tag-chain-on-a-test-scope", tier, true))
 	case "C20":
 		return c20Jobs(tier)
 	case "C19":
